@@ -668,8 +668,17 @@ func worldRoutes(w *World) {
 		warm := &route{name: fmt.Sprintf("r%d", nextName), kind: "http", host: warmHost, owner: a}
 		hand := &route{name: fmt.Sprintf("r%d", nextName+1), kind: "http", host: handHost, owner: a}
 		nextName += 2
+		// optionally the routes of this step are bandwidth-limited on the server side: one more wrapper around every
+		// work connection, which has to go when the route goes like everything else
+		limited := w.KnobBool("handover.server_side_limit", 50)
+		lim := func(f M) M {
+			if limited {
+				f["bandwidth_limit"], f["bandwidth_limit_mode"] = "1MB", "server"
+			}
+			return f
+		}
 		for _, x := range []*route{warm, hand} {
-			if rr, got := a.register(M{"proxy_name": x.name, "proxy_type": "http", "custom_domains": []string{x.host}}); !got || mstr(rr, "error") != "" {
+			if rr, got := a.register(lim(M{"proxy_name": x.name, "proxy_type": "http", "custom_domains": []string{x.host}})); !got || mstr(rr, "error") != "" {
 				viol("C06", "register", "free-route-refused", "fresh route %s refused: %v; history: %v", x.host, rr, history)
 				return
 			}
@@ -677,6 +686,10 @@ func worldRoutes(w *World) {
 		}
 		w.Probe("routes.handover_with_pending_request")
 		hist("handover of %s (host %s) from %s to %s with a request pending", hand.name, hand.host, a.Name, b.Name)
+		if limited {
+			w.Probe("routes.handover_of_limited_route")
+			env.probeHTTP(handHost, "/first", 8*time.Second) // an answered request: its connection may now idle in the vhost's pool
+		}
 		a.smu.Lock()
 		a.WorkMode, a.LateBy = wmLate, 1500*time.Millisecond
 		a.smu.Unlock()
@@ -700,7 +713,7 @@ func worldRoutes(w *World) {
 		live = kept
 		nb := &route{name: fmt.Sprintf("r%d", nextName), kind: "http", host: handHost, owner: b}
 		nextName++
-		nf := M{"proxy_name": nb.name, "proxy_type": "http", "custom_domains": []string{nb.host}}
+		nf := lim(M{"proxy_name": nb.name, "proxy_type": "http", "custom_domains": []string{nb.host}})
 		if r.Intn(2) == 0 {
 			// the new owner protects the route: the waiting request, admitted when the route was open, carries nothing
 			nb.authUser, nb.authPwd = "carol", "pw-"+randToken(r, 4)
